@@ -183,6 +183,13 @@ theorem retract_tw {D} {s s' : State} {l : List TaskId} {o : Out} (hi : TWI D s)
     cases h
     exact processRetracted_tw _ _ _ _ _ hi hp
 
+theorem removeTask_tw' {D} {s s' : State} {id : TaskId} {st : TS} (hi : TWI D s) (hn : (taskIds s.tasks).Nodup)
+    (hnr : ∀ w v, (id, w, v) ∉ s.redirects) (h : s.removeTask id = .ok (s', st)) : TWI (fun u => D u ∧ u ≠ id) s' := by
+  obtain ⟨_, hw, hr, _, hc⟩ := removeTask_spec h
+  constructor
+  · rw [hw, hr]; exact (hi.tw.erase hn id hnr).congr_tasks hc.stOf
+  · rw [hw]; exact (hi.mnu.erase hn id).congr_tasks hc.stOf
+
 theorem removeTask_tw {D} {s s' : State} {id : TaskId} {st : TS} (hi : TWI D s) (hn : (taskIds s.tasks).Nodup)
     (hf : Free s id) (h : s.removeTask id = .ok (s', st)) : TWI (fun u => D u ∧ u ≠ id) s' := by
   obtain ⟨_, hw, hr, _, hc⟩ := removeTask_spec h
